@@ -98,7 +98,7 @@ func NewRouter(s *specification.Spec, ps []*PathItem, os []*Operation, opt Gener
 			for _, s := range o.Security {
 				if s.Scheme.Type == specification.SecuritySchemeTypeHTTP && s.Scheme.Scheme == "bearer" {
 					r.JWT = true
-					p.JWT = true
+					op.JWT = true
 				}
 				if s.Scheme.Type == specification.SecuritySchemeTypeApiKey && s.Scheme.In == "header" {
 					op.APIKeys = append(op.APIKeys, s.Scheme.Name)
@@ -147,7 +147,6 @@ type RouterPathItem struct {
 
 	Operations []RouterPathItemOperation
 
-	JWT        bool
 	HasOptions bool
 }
 
@@ -161,6 +160,7 @@ type RouterPathItemOperation struct {
 	CORSMethods []string
 	CORSHeaders []string
 
+	JWT          bool
 	APIKeys      []string
 	APIKeysQuery []string
 }
